@@ -271,7 +271,7 @@ pub fn execute(sc: &Scenario) -> Outcome {
             let td = digest_str(&s);
             stats.seen("optimised_trees", td ^ shape.rotate_left(7));
             if s != base {
-                tree_probes(&s, &mut stats);
+                tree_probes(&opt, &mut stats);
                 if nonconstant {
                     stats.seen(
                         "nontrivial",
